@@ -2,6 +2,7 @@
 // M2: the harness plays the function (all answer sequences at the first D queries, default = piecewise-linear
 //     interpolant of what was answered); M3: concrete families, complete product; M4: diagnostics in child processes.
 #include "mc/mc.hpp"
+#include "mc/purity.hpp"
 #include "libphysica/Numerics.hpp"
 #include <map>
 using namespace libphysica;
@@ -485,6 +486,28 @@ static int replay()
 	return 0;
 }
 
+// ---- call histories: a request does not depend on the requests made before it (accuracy, bracket, function) -------------------------------
+static void histories(unsigned long long& unit)
+{
+	struct Req { const char* name; std::function<double(double)> f; double a, b, acc; };
+	std::vector<Req> R = {
+		{"x^2-2 on [0,2] acc 1e-3", [](double x) { return x * x - 2; }, 0, 2, 1e-3},
+		{"x^2-2 on [0,2] acc 1e-12", [](double x) { return x * x - 2; }, 0, 2, 1e-12},
+		{"x^2-2 on [2,0] acc 1e-8", [](double x) { return x * x - 2; }, 2, 0, 1e-8},
+		{"cos on [3,1] acc 1e-10", [](double x) { return std::cos(x); }, 3, 1, 1e-10},
+		{"atan(x-0.3) on [-5,40] acc 1e-6", [](double x) { return std::atan(x - 0.3); }, -5, 40, 1e-6},
+		{"x^3-1e6 on [1e-20,1e20] acc 1e-6", [](double x) { return x * x * x - 1e6; }, 1e-20, 1e20, 1e-6},
+		{"1e-200(x-0.3) on [0,1] acc 1e-9", [](double x) { return 1e-200 * (x - 0.3); }, 0, 1, 1e-9},
+		{"tanh(30x)+0.999 on [-50,80] acc 1e-7", [](double x) { return std::tanh(30 * x) + 0.999; }, -50, 80, 1e-7},
+		{"zero at the left end", [](double x) { return x - 1; }, 1, 4, 1e-3},
+	};
+	std::vector<mc::PureLetter> L;
+	for(auto& r : R)
+		L.push_back({r.name, [r]() { std::string q; std::function<double(double)> fn = [&](double x) { q += mc::hexd(x) + ","; return r.f(x); }; double v = Find_Root(fn, r.a, r.b, r.acc); return mc::hexd(v) + "|" + q; }});
+	long long t = mc::purity("histories", L, mc::thorough() ? 4 : 3, unit);
+	mc::count("evaluations", t);
+}
+
 int main(int argc, char** argv)
 {
 	mc::init(argc, argv);
@@ -494,6 +517,7 @@ int main(int argc, char** argv)
 	unsigned long long unit = 0;
 	adversary(unit);
 	families(unit);
+	histories(unit);
 	diagnostics(unit);
 	return mc::finish();
 }
